@@ -23,7 +23,9 @@ for c in m["checks"]:
                        "(sampling, not proof), extraction (ExtrOcamlBasic only), OCaml driver, Rust harness + hooks, rustc; "
                        "modelled rather than verified: payload type and drop order, unwinding rules of Vec/struct drop glue, "
                        "hashbrown as a finite map, RefCell scopes, abort, no counter overflow. See DESIGN.md 8 and 12.")
-    c["technique"] = "Coq proof (invariant over a small-step machine model) + differential correspondence of the extracted model with the instrumented Rust implementation"
+    c["technique"] = ("Coq proof (invariant over a small-step machine model) + differential correspondence of the extracted model with the instrumented Rust implementation"
+                      + ("; counter protocol translated from src/rc.rs to Gallina on every run (tools/rs2v.py) and proved equal to the model's (gen/CountersProofs.v)" if pid in ("C04", "C05", "C06", "C16") else "")
+                      + ("; borrow sites re-derived from the source and compared with the transcription of Proofs/Borrow.v" if pid == "C10" else ""))
 m["not_applicable"] = []
 json.dump(m, open(os.path.join(ROOT, "MANIFEST.json"), "w"), indent=1)
 print("ok", len(m["checks"]))
